@@ -98,6 +98,12 @@ CHECKS.update({
                      "without the JW remap vs P H P^T / F H F^T, OFS runs vs exact references; bounded; two recorded findings.",
                 technique="runtime contracts against an independent anticommuting-operator reference (bounded stand-in)",
                 note=OTHER_NOTE),
+    "C18": dict(cat="exploration", ref="DESIGN §8 C18",
+                text="Kernel contracts evaluated at run time: expm_krylov vs scipy expm to its own stopping tolerance over structured spectra / start vectors inside "
+                     "invariant subspaces / all dt phases / block sizes; svd_qn, eigh_qn and helpers (orthonormal factors, exact restoration of the symmetry-allowed "
+                     "part, labels, global sort, pairing) exhaustively over all label patterns on <= 3x3 blocks. Bounded; floating-point kernels cannot be proved here.",
+                technique="runtime contracts on the real kernels over bounded-exhaustive label patterns and structured matrices (bounded stand-in)",
+                note=OTHER_NOTE),
     "C13": dict(cat="exploration", ref="DESIGN §8 C13",
                 text="Frame contracts (represented vector, total charge and label validity of every live object unchanged; in-place mutation of a derived result "
                      "does not leak) evaluated after every step of random operation histories incl. every evolution scheme; bounded, nothing proved.",
@@ -138,7 +144,7 @@ def main():
             {"name": "pyvc", "path": "vk/pyvc", "serves_properties": ["C02", "C03", "C04", "C05", "C06", "C14", "C20"], "kind_free_text": "AST -> verification conditions (loop invariants, call by contract) -> z3/cvc5"},
             {"name": "exact-exec", "path": "vk/symx/exactexec.py", "serves_properties": ["C19"], "kind_free_text": "real source executed on exact rationals / z3 reals"},
             {"name": "symx", "path": "vk/symx", "serves_properties": ["C03", "C07"], "kind_free_text": "real NumPy-level code executed on exact symbolic polynomial scalars; identities decided by normal form"},
-            {"name": "rtc", "path": "vk/rtc", "serves_properties": ["C01", "C02", "C03", "C04", "C05", "C06", "C07", "C08", "C09", "C10", "C13", "C14", "C16", "C17", "C20"], "kind_free_text": "runtime contracts on the real functions, bounded-exhaustive inputs (bounded stand-in, never counted as proved)"},
+            {"name": "rtc", "path": "vk/rtc", "serves_properties": ["C01", "C02", "C03", "C04", "C05", "C06", "C07", "C08", "C09", "C10", "C13", "C14", "C16", "C17", "C18", "C20"], "kind_free_text": "runtime contracts on the real functions, bounded-exhaustive inputs (bounded stand-in, never counted as proved)"},
         ],
         "checks": checks,
         "not_applicable": na,
